@@ -225,7 +225,7 @@ def _is_tensor_img(args, kwargs, st, eng):
 
 @lib("math.log")
 def _log(args, kwargs, st, eng):
-    return VReal(z3.Function("ln", z3.RealSort(), z3.RealSort())(_e.to_real(eng.deref(args[0], st))))
+    return VReal(z3.Function("RLn", z3.RealSort(), z3.RealSort())(_e.to_real(eng.deref(args[0], st))))
 
 
 def _uf(name):
@@ -236,13 +236,13 @@ def _uf(name):
     return f
 
 
-LIB["math.exp"] = _uf("exp")
-LIB["numpy.exp"] = _uf("exp")
+LIB["math.exp"] = _uf("RExp")
+LIB["numpy.exp"] = _uf("RExp")
 
 
 def _sqrt(args, kwargs, st, eng):
     x = _e.to_real(eng.deref(args[0], st))
-    r = z3.Function("sqrt", z3.RealSort(), z3.RealSort())(x)
+    r = z3.Function("RSqrt", z3.RealSort(), z3.RealSort())(x)
     st.assume(z3.Implies(x >= 0, r >= 0))
     return VReal(r)
 
